@@ -142,6 +142,12 @@ def templates(tier, seed):
         tds.append(dict(fam="format", lo=i, hi=min(i + 12, len(FORMAT_CASES))))
     for c in SPECIAL_CMP:
         tds.append(dict(fam="special", expr=c[0], want=c[1]))
+    for c in NONFINITE:
+        for ctx in ("attr", "var", "text", "geom-free"):
+            tds.append(dict(fam="nonfinite", expr=c[0], want=c[1], ctx=ctx))
+    for c in COND_CASES:
+        for form in ("if", "while", "until"):
+            tds.append(dict(fam="cond", test=c[0], want=c[1], form=form))
     return tds
 
 
@@ -228,8 +234,18 @@ FORMAT_CASES = ["20.0004", "30.0004", "1000.0002", "-50.0003", "91.0004", "0.5",
 SPECIAL_CMP = [("sqrt(-1) le 0", "0"), ("sqrt(-1) ge 0", "0"), ("sqrt(-1) lt 0", "0"), ("sqrt(-1) gt 0", "0"), ("sqrt(-1) eq sqrt(-1)", "0"), ("sqrt(-1) ne 0", "1"), ("0 le sqrt(-1)", "0"), ("0 ge sqrt(-1)", "0"),
                ("1/0 gt 1000000", "1"), ("-1/0 lt -1000000", "1"), ("1/0 ge 1/0", "1"), ("1/0 le 1/0", "1"), ("1/0 eq 1/0", "1"), ("0/0 le 1/0", "0"), ("0/0 ge -1/0", "0"),
                ("le(sqrt(-1), 0)", "0"), ("ge(sqrt(-1), 0)", "0"), ("lt(0/0, 1)", "0"), ("gt(0/0, 1)", "0"), ("not(0/0)", "0"), ("if(0/0, 1, 2)", "1"), ("(0/0 le 1) or (1 le 2)", "1"), ("(0/0 ge 1) and 1", "0")]
-RANDOM_VARIANTS = ["loop-count-random", "loop-count-random3", "for-data-random", "while-random", "geom", "text", "circle-r", "var", "if", "comment", "relpos", "g-attr", "two-in-one", "loop-body", "reuse-attr",
+# non-finite results are values like any other: they are printed (inf, -inf, NaN), stored in variables and compared
+NONFINITE = [("1/0", "inf"), ("0 - 1/0", "-inf"), ("0/0", "NaN"), ("log(0)", "-inf"), ("exp(100)", "inf"), ("sqrt(-1)", "NaN"), ("pow(10, 40)", "inf"), ("asin(2)", "NaN"),
+             ("1/0 - 1/0", "NaN"), ("0 * (1/0)", "NaN"), ("max(1, 1/0)", "inf"), ("min(0 - 1/0, 3)", "-inf"), ("abs(0 - 1/0)", "inf"), ("1e38 * 10", "inf")]
+# conditions: a single number, true iff non-zero (however small, whatever sign); anything else is an error, not a truth value
+COND_CASES = [("-0.0003", True), ("0.0004", True), ("0.00001", True), ("-1", True), ("0", False), ("0.0", False), ("-0", False), ("{{1 - 1}}", False), ("{{0.1 + 0.2 - 0.3}}", None),
+              ("0, 0", "err"), ("1, 2", "err"), ("'no'", "err"), ("divmod(6, 3)", "err"), ("", "err"), ("1/0", True), ("0/0", None)]
+RANDOM_VARIANTS = ["reuse-attr-override", "reuse-attr-override2", "loop-count-random", "loop-count-random3", "for-data-random", "while-random", "geom", "text", "circle-r", "var", "if", "comment", "relpos", "g-attr", "two-in-one", "loop-body", "reuse-attr",
                    "randint", "randint-same", "randint-frac", "randint-neg", "random-in-expr", "randint-in-cond"]
+
+
+def count_tag(out, tag):
+    return len(re.findall(r"<%s[ />]" % tag, out or ""))
 
 
 def ctx_doc(ctx, expr, vars_):
@@ -421,6 +437,51 @@ def build(td, wrong=False):
             got = Out(r.output).by_tag("rect")[0].get("data-v")
             return [Obl(f"ieee({td['expr']})", PASS if got == td["want"] else FAIL, ground=True, note=f"{got!r} expected {td['want']!r}")]
         return Template(f"special/{td['expr']}", doc, [(3, *V)], check_sp, family="nan-inf-comparisons", role="C14/special", cap=2)
+    if fam == "nonfinite":
+        e, want, ctx = td["expr"], td["want"], td["ctx"]
+        doc = {"attr": f'<svg><rect xy="[[0]] 0" wh="1" data-v="{{{{{e}}}}}"/></svg>', "var": f'<svg><var q="{{{{{e}}}}}"/><rect xy="[[0]] 0" wh="1" data-v="$q"/></svg>',
+               "text": f'<svg><rect xy="[[0]] 0" wh="1" text="{{{{{e}}}}}"/></svg>', "geom-free": f'<svg><rect xy="[[0]] 0" wh="1" data-v="{{{{if(gt({e}, 0), 1, 2)}}}}"/></svg>'}[ctx]
+
+        def check_nf(r):
+            if r.status != "ok":
+                return [Obl("non-finite-value-is-a-value", FAIL, ground=True, note=r.status + " " + r.docs[0]["msg"][:200])]
+            o = Out(r.output)
+            if ctx == "text":
+                got = (o.by_tag("text")[0].text or "").strip()
+            else:
+                got = o.by_tag("rect")[0].get("data-v")
+            if ctx == "geom-free":
+                exp = "1" if want == "inf" else "2"
+            else:
+                exp = want
+            return [Obl(f"prints({e})", PASS if got == exp else FAIL, ground=True, note=f"{got!r} expected {exp!r}")]
+        return Template(f"nonfinite/{e}/{ctx}", doc, [(3, *V)], check_nf, family="non-finite-results", role="C14/nonfinite", cap=2)
+    if fam == "cond":
+        t, want, form = td["test"], td["want"], td["form"]
+        if form == "if":
+            doc = f'<svg><rect xy="[[0]] 0" wh="1"/><if test="{t}"><circle r="1"/></if></svg>'
+        elif form == "while":
+            doc = f'<svg><rect xy="[[0]] 0" wh="1"/><var n="0"/><loop while="eq($n, 0) and ({t if t else "()"})"><circle r="1"/><var n="1"/></loop></svg>' if False else \
+                  f'<svg><config loop-limit="3"/><rect xy="[[0]] 0" wh="1"/><var n="0"/><loop while="{t}"><circle r="1"/><var n="{{{{$n + 1}}}}"/></loop></svg>'
+        else:
+            doc = f'<svg><config loop-limit="3"/><rect xy="[[0]] 0" wh="1"/><loop until="{t}"><circle r="1"/></loop></svg>'
+
+        def check_c(r):
+            n = count_tag(r.output, "circle") if r.status == "ok" else None
+            if want == "err":
+                return [Obl("not-a-single-number-is-an-error", PASS if r.status == "err" else FAIL, ground=True, note=f"{r.status} circles={n}")]
+            if want is None:
+                return [Obl("ok-or-error", PASS if r.status in ("ok", "err") else FAIL, ground=True, note=r.status)]
+            if form == "if":
+                good = r.status == "ok" and n == (1 if want else 0)
+            elif form == "while":
+                # true: runs until the loop limit stops it (an error); false: no pass
+                good = (r.status == "err") if want else (r.status == "ok" and n == 0)
+            else:
+                # until: true ends after the first pass; false runs into the limit
+                good = (r.status == "ok" and n == 1) if want else (r.status == "err")
+            return [Obl(f"condition({t})-is-{want}", PASS if good else FAIL, ground=True, note=f"{r.status} circles={n} {r.docs[0]['msg'][:80]}")]
+        return Template(f"cond/{form}/{t}", doc, [(3, *V)], check_c, family="conditions", role="C14/cond", cap=2)
     if fam == "random-once":
         v = td["variant"]
         R = "{{random()}}"
@@ -429,6 +490,9 @@ def build(td, wrong=False):
                "if": f'<if test="{R}"><circle r="1"/></if>', "comment": f'<rect wh="1" _="{R}"/>', "relpos": f'<rect xy="^|h {R}" wh="1"/>', "g-attr": f'<g q="{R}"><rect wh="1"/></g>',
                "two-in-one": f'<rect xy="{R} 0" wh="1" data-x="{R}"/>', "loop-body": f'<loop count="2"><rect xy="{R} 0" wh="1"/></loop>',
                "reuse-attr": f'<specs><rect id="t" wh="$w 1"/></specs><reuse href="#t" w="{R}"/>',
+               # a reuse attribute that overrides a same-named attribute of the target is still one occurrence
+               "reuse-attr-override": f'<specs><rect id="t" wh="4" rx="1"/></specs><reuse href="#t" rx="{R}"/>',
+               "reuse-attr-override2": f'<specs><circle id="t" r="2" opacity="0.5" data-q="$opacity"/></specs><reuse href="#t" opacity="{R}"/>',
                # every occurrence of a random function draws exactly once, whatever its arguments evaluate to
                # loop control expressions are occurrences too: evaluated once per loop (count) / once per test (while)
                "loop-count-random": '<loop count="{{randint(2, 2)}}"><rect wh="1"/></loop>', "loop-count-random3": '<loop count="{{randint(3, 3) - 2}}"><rect wh="2"/></loop>',
